@@ -65,7 +65,20 @@ func (x *rgExec) exec(i int) int {
 			i = next
 			continue
 		case "route":
-			x.f.Routes(ins.Path, strings.Join(ins.Ms, ","), x.hs(ins.Hs)...)
+			hs := x.hs(ins.Hs)
+			switch (i + len(ins.Ms)) % 3 {
+			case 0: // "GET,POST"
+				x.f.Routes(ins.Path, strings.Join(ins.Ms, ","), hs...)
+			case 1: // "GET, POST" - blanks after the comma are trimmed
+				x.f.Routes(ins.Path, strings.Join(ins.Ms, ", "), hs...)
+			default: // Routes(path, "GET", "POST", handlers...): further methods as leading string arguments
+				args := make([]flamego.Handler, 0, len(ins.Ms)+len(hs)+2)
+				for _, m := range ins.Ms[1:] {
+					args = append(args, m)
+				}
+				args = append(args, hs...)
+				x.f.Routes(ins.Path, ins.Ms[0], args...)
+			}
 		case "any":
 			x.f.Any(ins.Path, x.hs(ins.Hs)...)
 		case "get":
